@@ -1,11 +1,13 @@
 (* C12 - case types and boolean checkers for the correspondence run.
-   A case = the file contents, a history of operations on one real object, and for every
-   executed operation what was visible afterwards (contents; the returned copy / result;
-   or the exception kind that ended the history).  For every by-ID operation and every
-   (re-)load the harness also applied the same call to a *fresh* object built from the same
-   logical content (a new instance given copies of the arrays held before the call, resp. a
-   new instance reading the same file); [fresh] is what that object showed.
-   [agree]: the concrete model (caches included) predicts every observation.
+   A case = the file contents, a history of operations on a real object and on the objects the
+   history created (copies returned by subset, objects built by merge_variants / merge), and for
+   every executed operation what was visible afterwards (contents of the object in focus; the
+   returned object / query result; or the exception kind - a ValueError is caught and the history
+   goes on, any other exception ends it).  For every by-ID operation, every (re-)load and every
+   merge the harness also applied the same call to *fresh* objects built from the same logical
+   content (new instances given copies of the arrays held before the call, resp. a new instance
+   reading the same file); [fresh] is what they showed.
+   [agree]: the concrete model (caches included, going on after exceptions) predicts every observation.
    [holds]: the history object and the fresh object show the same thing, at every step
             where a fresh object was consulted.  Independent of the model. *)
 From Coq Require Import PrimFloat.
@@ -14,28 +16,46 @@ Open Scope Z_scope.
 
 (* ---- genotypes ------------------------------------------------------------ *)
 
-Inductive gobs := GO (t : gtab) (r : option gtab) | GE (k : Z).
+Definition gview_eqb (a b : gview) : bool :=
+  match a, b with
+  | GVSim i p, GVSim i' p' => list_eqb Z.eqb i i' && list_eqb Z.eqb p p'
+  | GVTrans r, GVTrans r' => opt_eqb (list_eqb Z.eqb) r r'
+  | _, _ => false
+  end.
+
+Definition out_eqb {tab V} (et : tab -> tab -> bool) (ev : V -> V -> bool) (a b : out tab V) : bool :=
+  match a, b with
+  | ONone, ONone => true
+  | OCopy t, OCopy t' => et t t'
+  | OView v, OView v' => ev v v'
+  | _, _ => false
+  end.
+
+(* contents of the object in focus after the operation, and what the operation returned
+   (nothing / the new object's contents / a query result), or the exception kind *)
+Inductive gobs := GO (t : gtab) (r : out gtab gview) | GE (k : Z).
 
 Definition gobs_eqb (a b : gobs) : bool :=
   match a, b with
-  | GO t r, GO t' r' => gtab_eqb t t' && opt_eqb gtab_eqb r r'
+  | GO t r, GO t' r' => gtab_eqb t t' && out_eqb gtab_eqb gview_eqb r r'
   | GE k, GE k' => k =? k'
   | _, _ => false
   end.
 
-Definition gobs_of (x : res (gtab * option gtab)) : gobs :=
+Definition gobs_of (x : res (gtab * out gtab gview)) : gobs :=
   match x with Ok (t, r) => GO t r | Err k => GE k end.
 
 Record gcase := mkgcase {
   gk_anc : bool;                 (* GenotypesAncestry *)
   gk_legacy : bool;              (* false from the harness *)
+  gk_heal : bool;                (* index() discards a dictionary in which it found duplicates (harness switch) *)
   gk_file : gtab;                (* what a full read of the file holds *)
   gk_steps : list (xop (gop float) * gobs * option gobs)   (* operation | switch object, observed, fresh object's *)
 }.
 
 Definition model_geno (k : gcase) : list gobs :=
-  map gobs_of (gm_prun float rareF (gk_file k) (gk_anc k) (gk_legacy k)
-                      (map (fun s => fst (fst s)) (gk_steps k))).
+  map gobs_of (gm_prunx float rareF (gk_file k) (gk_anc k) (gk_legacy k) (gk_heal k)
+                       (map (fun s => fst (fst s)) (gk_steps k))).
 
 Definition holds_fresh {O} (e : O -> O -> bool) (steps : list (O * option O)) : bool :=
   forallb (fun s => match snd s with Some f => e (fst s) f | None => true end) steps.
@@ -50,26 +70,28 @@ Definition ptab_eqb (a b : ptab) : bool :=
   list_eqb Z.eqb (p_samples a) (p_samples b) && list_eqb Z.eqb (p_names a) (p_names b)
   && list_eqb (list_eqb Z.eqb) (p_rows a) (p_rows b).
 
-Inductive pobs := PO (t : ptab) (r : option ptab) | PE (k : Z).
+Inductive pobs := PO (t : ptab) (r : out ptab unit) | PE (k : Z).
 
 Definition pobs_eqb (a b : pobs) : bool :=
   match a, b with
-  | PO t r, PO t' r' => ptab_eqb t t' && opt_eqb ptab_eqb r r'
+  | PO t r, PO t' r' => ptab_eqb t t' && out_eqb ptab_eqb (fun _ _ => true) r r'
   | PE k, PE k' => k =? k'
   | _, _ => false
   end.
 
-Definition pobs_of (x : res (ptab * option ptab)) : pobs :=
+Definition pobs_of (x : res (ptab * out ptab unit)) : pobs :=
   match x with Ok (t, r) => PO t r | Err k => PE k end.
 
 Record pcase := mkpcase {
   pk_legacy : bool;
+  pk_fixapp : bool;              (* append() discards the name index when the name is already there (harness switch) *)
+  pk_heal : bool;                (* as gk_heal *)
   pk_file : ptab;
   pk_steps : list (xop pop * pobs * option pobs)
 }.
 
 Definition model_pheno (k : pcase) : list pobs :=
-  map pobs_of (pm_prun (pk_file k) (pk_legacy k) (map (fun s => fst (fst s)) (pk_steps k))).
+  map pobs_of (pm_prunx (pk_file k) (pk_legacy k) (pk_fixapp k) (pk_heal k) (map (fun s => fst (fst s)) (pk_steps k))).
 
 Definition check_pheno (k : pcase) : bool * bool :=
   (list_eqb pobs_eqb (model_pheno k) (map (fun s => snd (fst s)) (pk_steps k)),
@@ -104,11 +126,11 @@ Definition hobs_of (x : res (list hrec * hout)) : hobs :=
 Record hcase := mkhcase {
   hk_legacy : bool;
   hk_file : list hrec;
-  hk_steps : list (hop * hobs * option hobs)
+  hk_steps : list (hxop * hobs * option hobs)
 }.
 
 Definition model_haps (k : hcase) : list hobs :=
-  map hobs_of (hm_run (hk_file k) (hk_legacy k) h_init (map (fun s => fst (fst s)) (hk_steps k))).
+  map hobs_of (hp_m_run (hk_file k) (hk_legacy k) [h_init] 0 (map (fun s => fst (fst s)) (hk_steps k))).
 
 Definition check_haps (k : hcase) : bool * bool :=
   (list_eqb hobs_eqb (model_haps k) (map (fun s => snd (fst s)) (hk_steps k)),
